@@ -35,6 +35,8 @@ CLAIMED = {
         "DelayLine/delayed, continuous_counter, ClockDivider, ToggleSignal, debounce: theorem per parameter setting against specification machines, for all input/enable sequences. "
         "Parameters enumerated to the listed bounds. For ALL parameter values: as-coded Gallina models (Models/TimingAll.v) of DelayLine, continuous_counter, ToggleSignal and ClockDivider are proved equal to the specification machines and "
         "their period / duty / delay / restart behaviour is proved exactly (C16_delay_line_exact_all_n, C16_counter_period_exact_all_limits, C16_toggle_period_duty_exact_all_durations, C16_divider_*), each compiled configuration is tied to the as-coded model. "
+        "Models/TimingRt.v adds as-coded models of std.debounce (every period >= 1: equal to the saturating-counter specification, counter bounded, exact set/clear conditions and hold times), continuous_counter with a run-time limit (every width and limit sequence: wraps within one step after the limit drops below the count), "
+        "ToggleSignal and ClockDivider with run-time durations (C16_debounce_*_all_periods, C16_counter_rt_*, C16_toggle_rt_*, C16_divider_rt_*_partial), tied per compiled configuration by a second case theorem. "
         "Duration.count_periods: differential on integral ratios only (binary64 not modelled).",
    technique="Rocq proof: verified product-reachability checker per compiled utility/parameter; reference machines in Gallina",
    design_ref="DESIGN.md §6 C16"),
@@ -94,8 +96,10 @@ CLAIMED = {
    design_ref="DESIGN.md §6 C09"),
  "C12": dict(
    text="Proof. Per generated instantiation tree (leaf/mid templates, repeated templates, slice and typed-view actuals, registered and combinational leaves): the emitted interface of every entity equals its declaration, every template is emitted once and before its users, "
-        "every formal is associated exactly once (checked by the fail-closed elaborator), and a kernel-checked theorem that the elaborated hierarchical design and the REAL compilation of the same logic placed inline have equal traces for ALL input sequences.",
-   technique="Rocq proof: verified product-reachability checker, design against design, per generated tree",
+        "every formal is associated exactly once (checked by the fail-closed elaborator), and a kernel-checked theorem that the elaborated hierarchical design and the REAL compilation of the same logic placed inline have equal traces for ALL input sequences. "
+        "For ALL instantiation graphs: a Gallina model of the compiler's bookkeeping (Models/EmitOrder.v: collect_subenties traversal, template / elaboration caches, port map by formal name) is proved to emit each reachable template exactly once, every sub-entity before every (transitive) user, the top entity last, "
+        "independent of instance multiplicity, with every formal once in declaration order wired to the actual given for its name under any keyword order (C12_emit_order_*, C12_port_map_*); the model is compared exactly with the real compiler's unit order, instance lists, port maps and architecture runs on generated graphs on every run.",
+   technique="Rocq proof: verified product-reachability checker, design against design, per generated tree; induction over instantiation graphs on a Gallina model of the emission order / port map",
    design_ref="DESIGN.md §6 C12"),
  "C11": dict(
    text="Proof. Unbounded theorems over ALL histories of compilations on a Gallina model of the compiler's module/class-level scratch state (16 fields, each stage performing exactly the set/restore operations of the current tree on normal and exceptional exit): "
@@ -136,7 +140,10 @@ CLAIMED = {
         "the AXI4-Lite monitor of Models/AxiSpec.v (valid held until ready, exactly one response per transaction, OKAY/DECERR by address, strobed bytes written and others kept, read data = register content) never flags on the parsed VHDL of a wrapper around the REAL std.axi.axi4_light.Axi4Light + reg32 address map. "
         "Layouts (one / two memory words, register arrays at the top level and inside a RegFile at a non-zero offset, one- and two-level nested RegFiles, a Register with MemField / MemUField / hardware-driven UField and Field and PushOnNotify.Write/.Read), "
         "data patterns and strobes are enumerated per phase; sequences are proved.  The monitor also checks write masks (only writable bits change through the bus), that hardware-driven bits follow the hardware model, and that each notification is one pulse in exactly the clock in which the access completes. "
-        "General facts about the reference model are proved for all inputs (C20_strobe_merge_exact, C20_strobe_merge_nothing_else, C20_masked_write_exact, C20_unmapped_write_keeps, C20_write_other_registers_kept, C20_decode_sound, ...).",
+        "General facts about the reference model are proved for all inputs (C20_strobe_merge_exact, C20_strobe_merge_nothing_else, C20_masked_write_exact, C20_unmapped_write_keeps, C20_write_other_registers_kept, C20_decode_sound, ...). "
+        "For ALL layouts: Models/AxiLayout.v models the address computation and decode of reg.py / connect_addr_map as coded (layout trees of registers, arrays and nested register files with field lists); proved for every accepted layout tree: absolute offset = sum of the offsets along the path (arrays: + index*step), "
+        "no two registers at one address, decode exact (Some k iff the address lies in register k, None iff unmapped), write mask = union of the software-writable fields, fields disjoint, byte-strobe merge exact, and that these functions ARE the monitor's parameters (C20_layout_*, C20_layout_map_write_is_monitor_write); "
+        "tied on every run by executing the real classes and the real read/write closures on ~330 generated layout trees and comparing inside Coq.",
    technique="Rocq proof: verified reachability checker on design x AXI-monitor product (mcheck_s_sound) per compiled register map",
    design_ref="DESIGN.md §6 C20"),
 }
